@@ -165,8 +165,8 @@ func (g *Gen) HeaderFor(r *FnResult) string {
 		// close under spec-function definitions and axioms
 		for changed := true; changed; {
 			changed = false
-			for _, d := range g.pureDefs {
-				name := strings.Fields(d)[1]
+			for _, pd := range g.pureDefs {
+				name, d := pd.Name, pd.Text
 				if used[name] && !used["\x00def:"+name] {
 					used["\x00def:"+name] = true
 					for k := range symTokens(d) {
@@ -191,8 +191,8 @@ func (g *Gen) HeaderFor(r *FnResult) string {
 					}
 				}
 				if !hit {
-					for _, d := range g.pureDefs {
-						n := strings.Fields(d)[1]
+					for _, pd := range g.pureDefs {
+						n := pd.Name
 						if toks[n] && used[n] {
 							hit = true
 							break
@@ -267,9 +267,14 @@ func (g *Gen) HeaderFor(r *FnResult) string {
 			}
 		}
 	}
-	for _, d := range g.pureDefs {
-		if has(strings.Fields(d)[1]) {
-			b.WriteString(d + "\n")
+	for _, pd := range g.pureDecls {
+		if has(pd.Name) {
+			b.WriteString(pd.Text + "\n")
+		}
+	}
+	for _, pd := range g.pureDefs {
+		if has(pd.Name) {
+			b.WriteString(pd.Text + "\n")
 		}
 	}
 	for i, a := range g.axioms {
